@@ -60,20 +60,99 @@ func opsString(ops []cop) string {
 	return strings.Join(s, " ")
 }
 
+// calleeDecl finds the declaration of a package-local function or method.
+func calleeDecl(p *packages.Package, callee *types.Func) *ast.FuncDecl {
+	for _, f := range p.Syntax {
+		for _, d := range f.Decls {
+			if fd, ok := d.(*ast.FuncDecl); ok && p.TypesInfo.Defs[fd.Name] == types.Object(callee) {
+				return fd
+			}
+		}
+	}
+	return nil
+}
+
+// inlineNewHelper: a call that hands the stream to a package-local function which is not in the
+// recorded baseline (a helper extracted later) contributes that helper's grammar in place.
+func (w *codecWalker) inlineNewHelper(ce *ast.CallExpr, callee *types.Func) ([]cop, bool) {
+	if baselineGlobal == nil || callee.Pkg() != w.pkg.Types || codecHelperBusy[callee] {
+		return nil, false
+	}
+	streamArg := false
+	for _, a := range ce.Args {
+		if w.isStream(a) {
+			streamArg = true
+		}
+	}
+	if !streamArg {
+		return nil, false
+	}
+	fd := calleeDecl(w.pkg, callee)
+	if fd == nil || fd.Body == nil || baselineGlobal[funcIdent(w.pkg.PkgPath, fd)] {
+		return nil, false
+	}
+	// parameters take the identity of the caller's variables
+	pv := map[types.Object]string{}
+	for k, v := range w.paramVar {
+		pv[k] = v
+	}
+	i := 0
+	for _, fl := range fd.Type.Params.List {
+		names := fl.Names
+		if len(names) == 0 {
+			i++
+			continue
+		}
+		for _, nm := range names {
+			if i < len(ce.Args) {
+				if k := w.varKey(ce.Args[i]); k != "" {
+					if o := w.info.Defs[nm]; o != nil {
+						pv[o] = k
+					}
+				}
+			}
+			i++
+		}
+	}
+	codecHelperBusy[callee] = true
+	sub := extractCodecWith(w.pkg, fd, w.fn.Writer, pv)
+	delete(codecHelperBusy, callee)
+	if len(sub.Undecided) > 0 {
+		w.fn.Undecided = append(w.fn.Undecided, sub.Undecided...)
+	}
+	// the helper works on the same receiver (method of the same type) or on the arguments
+	if se, ok := ast.Unparen(ce.Fun).(*ast.SelectorExpr); ok && w.canon(se.X) == "@" {
+		for _, f := range sub.Fields {
+			if !w.seenFld[f] {
+				w.seenFld[f] = true
+				w.fn.Fields = append(w.fn.Fields, f)
+			}
+		}
+	}
+	for _, a := range ce.Args {
+		if !w.isStream(a) {
+			w.mention(a)
+		}
+	}
+	w.fn.Checks = append(w.fn.Checks, sub.Checks...)
+	return sub.Ops, true
+}
+
 // codecHelperBusy guards the inlining of package-local byte-moving helpers against recursion.
 var codecHelperBusy = map[*types.Func]bool{}
 
 type codecWalker struct {
-	pkg     *packages.Package
-	info    *types.Info
-	fn      *codecFn
-	streams map[types.Object]bool
-	recv    types.Object // receiver or struct parameter whose fields are (de)serialised
-	seenFld map[string]bool
-	aliases map[types.Object]string   // local var -> canonical meaning (e.g. count var)
-	locals  map[types.Object]ast.Expr // writer: local var -> defining expression
-	busy    map[types.Object]bool
-	madeLen map[string]string // reader: canonical field -> identity of the variable it was made with ("expr": not a plain variable, "0": made empty and appended to)
+	pkg      *packages.Package
+	info     *types.Info
+	fn       *codecFn
+	streams  map[types.Object]bool
+	recv     types.Object // receiver or struct parameter whose fields are (de)serialised
+	seenFld  map[string]bool
+	aliases  map[types.Object]string   // local var -> canonical meaning (e.g. count var)
+	locals   map[types.Object]ast.Expr // writer: local var -> defining expression
+	busy     map[types.Object]bool
+	paramVar map[types.Object]string // helper parameter -> identity of the caller's variable passed for it
+	madeLen  map[string]string       // reader: canonical field -> identity of the variable it was made with ("expr": not a plain variable, "0": made empty and appended to)
 }
 
 func findFuncDecl(p *packages.Package, recvType, name string) *ast.FuncDecl {
@@ -115,7 +194,12 @@ func isStreamType(t types.Type) bool {
 
 // extractCodec builds the grammar of one function.
 func extractCodec(p *packages.Package, fd *ast.FuncDecl, writer bool) *codecFn {
-	w := &codecWalker{pkg: p, info: p.TypesInfo, streams: map[types.Object]bool{}, seenFld: map[string]bool{}, aliases: map[types.Object]string{}, locals: map[types.Object]ast.Expr{}, busy: map[types.Object]bool{}}
+	return extractCodecWith(p, fd, writer, nil)
+}
+
+// extractCodecWith: paramVar gives helper parameters the identity of the caller's variables.
+func extractCodecWith(p *packages.Package, fd *ast.FuncDecl, writer bool, paramVar map[types.Object]string) *codecFn {
+	w := &codecWalker{pkg: p, info: p.TypesInfo, streams: map[types.Object]bool{}, seenFld: map[string]bool{}, aliases: map[types.Object]string{}, locals: map[types.Object]ast.Expr{}, busy: map[types.Object]bool{}, paramVar: paramVar}
 	w.fn = &codecFn{Name: fd.Name.Name, Writer: writer, Pos: fd.Pos()}
 	if fd.Recv != nil && len(fd.Recv.List) > 0 && len(fd.Recv.List[0].Names) > 0 {
 		w.recv = w.info.Defs[fd.Recv.List[0].Names[0]]
@@ -156,7 +240,11 @@ func extractCodec(p *packages.Package, fd *ast.FuncDecl, writer bool) *codecFn {
 				}
 			}
 			if as, ok := n.(*ast.AssignStmt); ok && as.Tok == token.DEFINE && len(as.Lhs) == 1 && len(as.Rhs) == 1 {
-				if cl, ok := ast.Unparen(as.Rhs[0]).(*ast.CompositeLit); ok {
+				rhs := ast.Unparen(as.Rhs[0])
+				if ue, ok := rhs.(*ast.UnaryExpr); ok && ue.Op == token.AND {
+					rhs = ast.Unparen(ue.X)
+				}
+				if cl, ok := rhs.(*ast.CompositeLit); ok {
 					_ = cl
 					if id, ok := as.Lhs[0].(*ast.Ident); ok {
 						if o := w.info.Defs[id]; o != nil {
@@ -207,6 +295,21 @@ func (w *codecWalker) isStream(e ast.Expr) bool {
 	}
 	if id, ok := e.(*ast.Ident); ok {
 		return w.streams[w.info.Uses[id]]
+	}
+	// a stream built in place over data the function holds: bytes.NewReader(data), bytes.NewBuffer(data)
+	if ce, ok := e.(*ast.CallExpr); ok {
+		if t := w.info.TypeOf(ce); t != nil && isStreamType(t) {
+			if callee, _ := func() (*types.Func, bool) {
+				switch f := ast.Unparen(ce.Fun).(type) {
+				case *ast.SelectorExpr:
+					fn, ok := w.info.Uses[f.Sel].(*types.Func)
+					return fn, ok
+				}
+				return nil, false
+			}(); callee != nil && callee.Pkg() != nil && callee.Pkg().Path() == "bytes" {
+				return true
+			}
+		}
 	}
 	return false
 }
@@ -421,6 +524,9 @@ func (w *codecWalker) call(ce *ast.CallExpr) (cop, bool) {
 		return cop{}, false
 	}
 	sig := callee.Type().(*types.Signature)
+	if ops, ok := w.inlineNewHelper(ce, callee); ok {
+		return cop{Kind: "Inline", Body: ops, Pos: ce.Pos()}, true
+	}
 	if sig.Recv() == nil && callee.Pkg() == w.pkg.Types {
 		// package-local helper that only moves raw bytes (e.g. a bounded "read n bytes"): its
 		// grammar is inlined, it is not a nested codec of a named thing.
@@ -503,7 +609,11 @@ func (w *codecWalker) opsInExpr(e ast.Node) []cop {
 		}
 		if ce, ok := n.(*ast.CallExpr); ok {
 			if op, ok := w.call(ce); ok {
-				ops = append(ops, op)
+				if op.Kind == "Inline" {
+					ops = append(ops, op.Body...)
+				} else {
+					ops = append(ops, op)
+				}
 				return false
 			}
 		}
@@ -584,11 +694,20 @@ func (w *codecWalker) block(stmts []ast.Stmt) []cop {
 				if len(thenOps) == 0 && !containsIO(rest) {
 					return append(ops, rest...)
 				}
+				// the inverted validation: `if ok { …; return nil }; return <error>` – the abort
+				// path after the if produces no value, the then-branch is the grammar
+				if !containsIO(rest) && i+1 < len(stmts) && returnsNonNilError(&ast.BlockStmt{List: stmts[i+1:]}) {
+					return append(ops, thenOps...)
+				}
 				w.mention(x.Cond)
 				ops = append(ops, w.withCond(factorAlt(thenOps, rest, x.Pos()), x.Cond)...)
 				return ops
 			}
 			if len(thenOps) == 0 && len(elseOps) == 0 {
+				continue
+			}
+			if eb, ok := x.Else.(*ast.BlockStmt); ok && len(elseOps) == 0 && returnsNonNilError(eb) {
+				ops = append(ops, thenOps...) // else-branch aborts with an error
 				continue
 			}
 			w.mention(x.Cond)
@@ -685,6 +804,9 @@ func (w *codecWalker) varKey(e ast.Expr) string {
 	if _, isVar := o.(*types.Var); !isVar {
 		return ""
 	}
+	if k, ok := w.paramVar[o]; ok {
+		return k
+	}
 	return fmt.Sprintf("%s@%d", id.Name, o.Pos())
 }
 
@@ -692,7 +814,7 @@ func (w *codecWalker) varKey(e ast.Expr) string {
 func (w *codecWalker) stmtOps(s ast.Stmt) []cop {
 	ops := w.opsInExpr(s)
 	if as, ok := s.(*ast.AssignStmt); ok && !w.fn.Writer && len(ops) == 1 && len(as.Rhs) == 1 && len(as.Lhs) >= 1 {
-		if _, isCall := ast.Unparen(as.Rhs[0]).(*ast.CallExpr); isCall && (ops[0].Kind == "V" || ops[0].Arg == "") {
+		if _, isCall := ast.Unparen(as.Rhs[0]).(*ast.CallExpr); isCall && ops[0].Kind != "Loop" && ops[0].Kind != "Alt" && (ops[0].Kind == "V" || ops[0].Arg == "") {
 			ops[0].Arg = w.canon(as.Lhs[0])
 			ops[0].Var = w.varKey(as.Lhs[0])
 		}
